@@ -17,6 +17,12 @@ func Rd[T any](site int, p *T) *T {
 }
 
 func Wr[T any](site int, p *T) *T {
+	// a write to shared memory is a scheduling point: what another goroutine does between the
+	// previous synchronisation operation and this write is an interleaving of its own
+	// (e.g. a job handed to a worker before one of its fields is set)
+	if s := S; !s.dead() && s.cur != nil && s.cur.id != 0 {
+		s.yield(&pending{desc: "write"})
+	}
 	memAcc(site, unsafe.Pointer(p), unsafe.Sizeof(*p), "w")
 	return p
 }
